@@ -223,6 +223,13 @@ def main(argv=None):
             witnesses[(cid, task["want"])] = res
         return None
 
+    if args.failfast and hasattr(mod, "extra") and not args.only:
+        # calibration aid: the (cheap) E2 part first
+        x0 = mod.extra(args.tier, seed, dict(prop=prop, jobs=args.jobs, replay_dir=replay_dir, root=ROOT))
+        if x0.get("violations"):
+            for cid, rp, detail in x0["violations"][:2]:
+                log("VIOLATION property=%s replay=%s   (condition %s: %s) [failfast, E2 part]" % (prop, os.path.relpath(rp, ROOT), cid, detail))
+            return 1
     log("%s tier=%s seed=%d: %d conditions, %d witness twins, %d jobs" % (prop, args.tier, seed, len(conds), len(wt), args.jobs))
     run_pool(tasks, args.jobs, on_result, should_stop=lambda: bool(early))
     if early:
